@@ -40,6 +40,53 @@ def go_unquote(lit):
             out.append(c); i += 1
     return ''.join(out)
 
+def indep_facts(v4):
+    """Structural facts behind the footprint table of C19 (coq/Indep.v): does every generic class
+    accessor hold its mutex around the lookup and the insertion in its registry map; does the
+    notation keep ONE formatter / parser (shared mutable state behind every String() call);
+    does the sorter class keep ONE ranking function bound to one collator."""
+    import glob
+    locked = []
+    for f in sorted(glob.glob(os.path.join(v4, '*', '*.go'))):
+        if f.endswith('_test.go'):
+            continue
+        src = read(f)
+        for m in re.finditer(r'^var (\w+Class) = map\[string\]any\{\}', src, re.M):
+            reg = m.group(1)
+            stem = reg[:-len('Class')]
+            acc = re.search(r'^func (\w+)\[[^\]]*\]\([^)]*\)[^{]*\{(.*?)^\}', src[m.end():], re.M | re.S)
+            ok = False
+            if acc:
+                body = acc.group(2)
+                uses = [u.start() for u in re.finditer(re.escape(reg) + r'\[', body)]
+                lock = body.find(stem + 'Mutex.Lock()')
+                unlock = body.rfind(stem + 'Mutex.Unlock()')
+                deferred = re.search(re.escape(stem) + r'Mutex\.Lock\(\)\s*\n\s*defer ' + re.escape(stem) + r'Mutex\.Unlock\(\)', body)
+                ok = bool(uses) and lock >= 0 and lock < min(uses) and ((unlock > max(uses)) or (deferred is not None and deferred.start() < min(uses)))
+                # ONE critical section: a lookup and an insertion in two separate Lock/Unlock pairs is check-then-act
+                ok = ok and body.count(stem + 'Mutex.Lock()') == 1 and body.count(stem + 'Mutex.Unlock()') == 1
+                # nothing may touch the map outside the accessor
+                outside = src[:m.start()] + src[m.end():m.end() + acc.start()] + src[m.end() + acc.end():]
+                if re.search(re.escape(reg) + r'\b', outside):
+                    ok = False
+            locked.append((os.path.relpath(f, v4) + ':' + reg, ok))
+    nota = read(os.path.join(v4, 'cdcn/notation.go'))
+    nstruct = must(re.search(r'type notation_ struct \{(.*?)\n\}', nota, re.S), 'notation_ struct').group(1)
+    nstruct = re.sub(r'//[^\n]*', '', nstruct)
+    shares_fmt = bool(re.search(r'\bFormatterLike\b|\*formatter_\b', nstruct))
+    shares_par = bool(re.search(r'\bParserLike\b|\*parser_\b', nstruct))
+    sorter = read(os.path.join(v4, 'agent/sorter.go'))
+    sstruct = must(re.search(r'type sorterClass_\[V any\] struct \{(.*?)\n\}', sorter, re.S), 'sorterClass_ struct').group(1)
+    sstruct = re.sub(r'//[^\n]*', '', sstruct)
+    shares_coll = bool(re.search(r'\bRankingFunction\[|\bCollatorLike\[|\*collator_\[', sstruct))
+    b = lambda x: 'true' if x else 'false'
+    return [
+        "Definition registry_locked : list (string * bool) := [%s]." % '; '.join('(%s, %s)' % (coq_string(n), b(v)) for n, v in locked),
+        "Definition notation_shares_formatter : bool := %s." % b(shares_fmt),
+        "Definition notation_shares_parser : bool := %s." % b(shares_par),
+        "Definition sorter_shares_collator : bool := %s." % b(shares_coll),
+    ]
+
 def main():
     root, outp = sys.argv[1], sys.argv[2]
     v4 = os.path.join(root, 'v4')
@@ -119,6 +166,7 @@ def main():
             sys.stderr.write("genparams: missing regexp constant %s\n" % w); sys.exit(3)
         items.append("(%s, %s)" % (coq_string(w), coq_string(consts[w])))
     lines.append("Definition token_regexps : list (string * string) := [\n  %s]." % ';\n  '.join(items))
+    lines += indep_facts(v4)
     text = '\n'.join(lines) + '\n'
     old = None
     if os.path.exists(outp):
